@@ -334,6 +334,8 @@ def run(prog, tier, extra=None):
             "the block leaving the window, and whether rebroadcasts are checked at all, are found through the by-height index: its positions must be ring positions")
     include(res, prog, tier, extra, "c03", ["C03.tx-apply-total"],
             "a rebroadcast replaces the expiring output - and a reorganisation gives it back - only if every input and output of every transaction is (un)wound")
+    include(res, prog, tier, extra, "c01", ["C01.input-window"],
+            "'an output older than the window can no longer be spent': the dust outputs collected as fees stay in the UTXO set, so only the window test keeps them unspendable")
     include(res, prog, tier, extra, "c01", ["C01.utxo-lookup"],
             "the rebroadcast commitment does not cover an input's block id / ordinal: only the ledger lookup ties the rebroadcast to the output it replaces")
     res.explanation = (
